@@ -2,7 +2,7 @@
 // C01 / C03 / C04: bytes -> the structured program generator -> differential against the reference interpreter + heap ledger
 mod common;
 use libfuzzer_sys::fuzz_target;
-use nlv::diff::{diff_program, Verdict};
+use nlv::diff::{diff_program_budget, Verdict};
 use nlv::gen::{gen_program, Profile};
 
 fuzz_target!(|data: &[u8]| {
@@ -17,7 +17,7 @@ fuzz_target!(|data: &[u8]| {
         _ => Profile::control(),
     };
     let (prog, _) = gen_program(&data[1..], &profile);
-    let out = diff_program(&prog);
+    let out = diff_program_budget(&prog, 20_000, 200_000);
     if let Verdict::Violation { class, expected, observed } = out.verdict {
         common::report(nlv::report::Violation { property: "C01".into(), driver: "fz_prog".into(), class, case: serde_json::json!({"src": out.src}), expected, observed });
     }
